@@ -7,7 +7,12 @@ C09 / C15: square roots, `get_point_from_x`, the compressed point encoding and t
   given abscissa with the requested sign bit; every curve point is reachable from its own abscissa and sign bit.
 * compressed round trip `decode (encode P) = P` (validating and not), and canonicity: validating decode accepts exactly
   the encoder's output (`decodeChecked = decodeCanonical` in both forms).
-* the marshalling round trips built on them.
+* the marshalling round trips built on them.  NOTE: the unmarshalling side (`unmarshalParams`, `unmarshalKey`,
+  `unmarshalCt`, `unmarshalSig`, `unmarshalMsk`, `fq12OfBytes`, and `marshalCt`/`marshalSig`/`marshalMsk`) is DEFINED in
+  this file (section `Unmarshal`), mirroring the readers of `Driver/Judge6.lean`; `Impl/Marshal.lean` only has the
+  marshalling side of parameters and keys.  Moving these definitions to `Impl/Marshal.lean` (and letting the judge use
+  them) would tie them to the C++ by the correspondence check.
+Closed facts (q mod 4, non-cube tests `(−b)^((|K|−1)/3) ≠ 1`, …) are checked by kernel evaluation.
 -/
 import JediVerif.Proofs.FqTower
 import JediVerif.Proofs.MarshalProofs
